@@ -141,7 +141,8 @@ PROPS = {
             {"engine": "D", "crate": "d_node", "harnesses": [
                 {"name": "c07_scratchpad_seq", "covers": ["replaced", "kept"], "quick": {"max_paths": 10000, "timeout": 600}},
                 {"name": "c07_union", "covers": ["transactions", "registers", "cross_kind"], "quick": {"max_paths": 1000, "timeout": 600}},
-                {"name": "c07_scratchpad_conc", "covers": ["settled", "replaced_by_a_delivery", "both_deliveries_stale"], "quick": {"max_paths": 100000, "timeout": 600}},
+                {"name": "c07_scratchpad_conc", "covers": ["settled", "replaced_by_a_delivery", "both_deliveries_stale"], "quick": {"max_paths": 100000, "timeout": 600},
+                 "thorough": {"env": {"C07_CONC": 3}, "max_paths": 5000000, "timeout": 3400}},
             ]},
         ],
         "assumptions": NODE_ASSUMPTIONS + [
@@ -180,6 +181,7 @@ PROPS = {
                 {"name": "c09_receive", "covers": ["eligible_sender", "ineligible_sender"], "quick": {"max_paths": 100000, "timeout": 600}},
                 {"name": "c09_range_follows", "covers": ["ran"], "quick": {"max_paths": 10000, "timeout": 600}},
                 {"name": "c09_divergent_version", "covers": ["ran"], "quick": {"max_paths": 1000, "timeout": 600}},
+                {"name": "c09_two_versions_both_fetched", "covers": ["ran"], "quick": {"max_paths": 10000, "timeout": 600}},
             ]},
         ],
         "assumptions": COMMON_D_ASSUMPTIONS + [
